@@ -385,9 +385,7 @@ def annot_oracle(case, obs):
                 if "#" in want and kd in (3, 4):
                     got = "".join(got.split())        # `Name # Event`: the id is the two names joined by '#'
                 if got != want:
-                    # token ends are start + UTF-8 byte length (C08 TokSorted): tolerated for non-ASCII names only
-                    if not (any(ord(c) > 127 for c in want) and lines[sl][sc:sc + len(want)] == want):
-                        return "%s: text at selection range %r is %r" % (where, sel, got)
+                    return "%s: text at selection range %r is %r" % (where, sel, got)
                 if not ((rg[0], rg[1]) <= (sl, sc) and (el, ec) <= (rg[2], rg[3])):
                     return "%s: selection %r outside range %r" % (where, sel, rg)
                 # the parameters of a procedure / function TYPE declare nothing (repair c14b1c2): in the documents
